@@ -36,20 +36,22 @@ def generate(consts, num, seed, depth):
         shutil.rmtree(tmp, ignore_errors=True)
 
 
-def execute(steps, T, CAP, timeout_s, U):
-    conv = scen.Conversation(args=['--timeout', str(timeout_s), '--client-recvbuf-size', str(U), '--server-recvbuf-size', str(U)])
+def execute(steps, T, CAP, timeout_s, U, threaded=False):
+    conv = scen.Conversation(args=['--timeout', str(timeout_s), '--client-recvbuf-size', str(U), '--server-recvbuf-size', str(U)], threaded=threaded)
     sim = conv.sim
     c = conv.client()
     conv.step(('c', CONNECT))
     u = sim.upstreams[0]
     ack = len(c.got)
-    handler = next(iter(sim.ex.works.values()))
+    handler = sim.live_handler() if threaded else next(iter(sim.ex.works.values()))
     c.sock.cap = CAP * U            # the wire towards the client
     unit_s = timeout_s / T
     out = []
     sent = 0
 
     def closed():
+        if threaded:
+            return not any(h is handler for h, _p in sim.handlers)
         return not any(w is handler for w in sim.ex.works.values())
     for act in steps:
         if act == 'Advance':
@@ -90,6 +92,9 @@ def run(chk):
         behs, g = generate(consts, 2500 if quick else 30000, chk.seed * 17 + consts['T'], 3 * consts['MAXT'])
         chk.add_tlc('Idle -simulate T=%d' % consts['T'], g)
         traces = [{'id': n + 1, 'steps': execute(b, consts['T'], consts['CAP'], timeout_s, U)} for n, b in enumerate(behs)]
+        # threaded mode: the handler's own loop checks is_inactive() (here: when the schedule says Reap)
+        for b in behs[::4]:
+            traces.append({'id': len(traces) + 1, 'steps': execute(b, consts['T'], consts['CAP'], timeout_s, U, threaded=True), 'threaded': True})
         results, rej = tlc.run_sharded('TraceIdle', 'TraceIdle.cfg', traces, shards=16, timeout=900, constants=consts)
         m = tlc.Merged(results)
         chk.add_tlc('TraceIdle T=%d (%d timed executions of the real handler)' % (consts['T'], len(traces)), m)
@@ -101,13 +106,14 @@ def run(chk):
             if clause.startswith('machinery'):
                 raise MachineryError('trace %d: %s %s' % (tid, clause, traces[tid - 1]['steps'][:int(idx)]))
             acts = [s['act'] for s in traces[tid - 1]['steps'][:int(idx)]]
-            chk.violation({'clause': clause.split(' (')[0][:80]}, 'timeout %d units, schedule %s: %s' % (consts['T'], ' '.join(acts), clause),
+            chk.violation({'clause': clause.split(' (')[0][:80], 'threaded': bool(traces[tid - 1].get('threaded'))},
+                          '%stimeout %d units, schedule %s: %s' % ('threaded mode, ' if traces[tid - 1].get('threaded') else '', consts['T'], ' '.join(acts), clause),
                           {'schedule': acts, 'timeout_seconds': timeout_s, 'unit_bytes': U, 'consts': consts})
         chk.sample({'consts': consts, 'timeout_seconds': timeout_s, 'schedule': [s['act'] for s in traces[0]['steps']],
                     'closed_after_each_step': [s['obs']['closed'] for s in traces[0]['steps']]})
     chk.assume('virtual clock patched over time.time in proxy.http.handler; the sweep is the executor\'s own _cleanup_inactive, called when the '
                'schedule says (the tick arithmetic of _run_forever that decides WHEN sweeps happen is not exercised here)',
-               'threaded mode (run() checks is_inactive every iteration) shares is_inactive / last_activity with this path')
+               'threaded mode: the handler is driven through its own is_inactive() / _run_once() / shutdown() as run() does, one loop iteration per tick')
 
 
 if __name__ == '__main__':
